@@ -220,6 +220,7 @@ static int json_patch_apply_move_copy(struct json_object **res,
 	struct json_object *jfrom;
 	const char *from_s;
 	size_t from_s_len;
+	int add = 1;
 	int rc;
 
 	if (!json_object_object_get_ex(patch_elem, "from", &jfrom)) {
@@ -281,7 +282,8 @@ static int json_patch_apply_move_copy(struct json_object **res,
 		array_set_cb = json_object_array_move_cb;
 	}
 
-	rc = json_pointer_set_with_array_cb(res, path, from.obj, array_set_cb, &from);
+	/* json_object_array_insert_idx_cb() reads its priv as the "add" flag: a copy always inserts */
+	rc = json_pointer_set_with_array_cb(res, path, from.obj, array_set_cb, &add);
 	if (rc)
 	{
 		_set_err(errno, "Failed to set value at path referenced by 'path' field");
